@@ -3,9 +3,10 @@ use crate::infra::PropDef;
 
 pub mod c04;
 pub mod c09;
+pub mod c15;
 
 pub fn all() -> &'static [PropDef] {
-    static ALL: &[PropDef] = &[c04::DEF, c09::DEF];
+    static ALL: &[PropDef] = &[c04::DEF, c09::DEF, c15::DEF];
     ALL
 }
 
